@@ -5,6 +5,7 @@ From Coq Require Import List Bool Arith Lia.
 Import ListNotations.
 From Omega Require Import L4.Arena L4.ArenaFacts L4.Kleene L4.GameSpec L4.AlgOrder.
 From OmegaGen Require Import FixpointGen.
+From OmegaGP Require Import ReadsFixpoint.
 
 Ltac ext_all := repeat first [apply forallb_ext'; intro | apply existsb_ext'; intro].
 Ltac strip := repeat (progress (alg_unfold; cbn [forall_raw exist_raw dom setg vc vx vy vxp vyp]; ext_all)).
@@ -278,4 +279,3 @@ Example c11_nonvacuous :
     = [true; true; false] /\
   NV 1 2 3 <= 40.
 Proof. vm_compute. repeat split; lia. Qed.
-
